@@ -16,45 +16,45 @@ NOT_CLAIMED = {}
 
 # property -> definition
 PROPS = {
-    "C01": dict(kind="lib", level="exploration", modes=[("c01", 4000, 60000)], floor=500,
+    "C01": dict(kind="lib", level="exploration", modes=[("c01", 12000, 180000)], floor=500,
                 rule="seeded random models (2-7 variables incl. literals, sparse/negative domains, views, every constraint kind, half/full reification) x random SolverOptions x random brancher x one of 5 result paths (satisfy, iterator, assumptions, both optimisers with callbacks); non-trivial = the run handed out >=1 solution and had >=1 conflict or non-root propagation; distinct = distinct (model, sub-seed) fingerprints"),
-    "C02": dict(kind="lib", level="exploration", modes=[("c02", 4000, 60000)], floor=500,
+    "C02": dict(kind="lib", level="exploration", modes=[("c02", 12000, 180000)], floor=500,
                 rule="seeded random models biased to the phase transition; verdict of satisfy vs enumerator, post-time errors vs prefix model, every Learned hook event vs the solution set, poll budget; non-trivial = >=1 conflict or non-root propagation"),
-    "C03": dict(kind="lib", level="exploration", modes=[("c03", 3000, 40000)], floor=500,
+    "C03": dict(kind="lib", level="exploration", modes=[("c03", 8000, 120000)], floor=500,
                 rule="seeded random models; full iteration (35% of cases: iterator dropped after k solutions and a new one started) compared with the enumerator's solution set; non-trivial = >=2 solutions or >=1 conflict"),
-    "C04": dict(kind="lib", level="exploration", modes=[("c04", 3000, 40000)], floor=500,
+    "C04": dict(kind="lib", level="exploration", modes=[("c04", 8000, 120000)], floor=500,
                 rule="seeded random models x objective view x min/max x both procedures; Optimal value vs brute-force optimum, callbacks checked; non-trivial = >=2 solutions or >=1 conflict"),
-    "C05": dict(kind="lib", level="exploration", modes=[("c05", 2500, 30000)], floor=400,
+    "C05": dict(kind="lib", level="exploration", modes=[("c05", 8000, 90000)], floor=400,
                 rule="seeded random models x 2-6 assumption lists per solver (all predicate kinds, duplicates, implied, directly contradictory, out-of-domain constants); verdict/core/restoration judged against the enumerator; non-trivial = >=2 solutions or >=1 conflict"),
-    "C12": dict(kind="lib", level="exploration", modes=[("c12", 4000, 60000)], floor=500,
+    "C12": dict(kind="lib", level="exploration", modes=[("c12", 12000, 180000)], floor=500,
                 rule="seeded random models; after every posting prefix the reported bounds of every variable, 3 random views and literal values are compared with the hull of the prefix model's solutions; non-trivial = some prefix tightened a bound"),
-    "C07": dict(kind="lib", level="exploration", modes=[("c07", 3000, 24000)], floor=150, case_timeout=90,
+    "C07": dict(kind="lib", level="exploration", modes=[("c07", 3000, 36000)], floor=150, case_timeout=90,
                 rule="seeded models near the phase transition, each solved under K configurations (quick 8, thorough 40: resolver, minimisation, restart sequence/intervals/coefficients, learned-nogood limits/threshold/sorting, tiny max activity, seed, brancher); solution set of every configuration compared with the enumerator; non-trivial = some configuration had >=3 conflicts"),
-    "C08": dict(kind="lib", level="exploration", modes=[("c08", 1800, 2400)], floor=300,
+    "C08": dict(kind="lib", level="exploration", modes=[("c08", 1800, 2400)], floor=300, case_timeout=10,
                 rule="cumulative models (70% canonical, 30% extended regime: zero durations/usages, usage > capacity, negative starts, scaled views, repeated variables, holes) with side constraints; quick: 6 option tuples per model walking the 144-tuple space with stride 37 so that a run covers all 144, thorough: all 144 per model; solution set vs time-point definition, explanation judge on every cumulative event; non-trivial = >=2 solutions or cumulative events observed"),
-    "C09": dict(kind="lib", level="exploration", modes=[("c09", 4200, 42000)], floor=500,
+    "C09": dict(kind="lib", level="exploration", modes=[("c09", 12600, 126000)], floor=500,
                 rule="one constraint of each of 21 kinds posted as implied_by / reify / negation with the literal free, true or false at posting time, plus side constraints; input-order branchers over random permutations with random value selectors, and the default brancher; solution set vs (r -> c), (r <-> c), complement; non-trivial = >=2 solutions or >=1 conflict"),
-    "C17": dict(kind="lib", level="exploration", modes=[("c17", 4000, 40000)], floor=500,
+    "C17": dict(kind="lib", level="exploration", modes=[("c17", 12000, 120000)], floor=500, case_timeout=10,
                 rule="seeded random models with every constraint tagged; hook events Propagation / Conflict / AnalysisReason judged for sufficiency against the tagged constraint's tuple table (untagged nogood events against the model's solution set) and for truth in the state in which the reason is given; non-trivial = >=1 reason checked and >=1 conflict or non-root propagation"),
-    "C18": dict(kind="lib", level="exploration", modes=[("c18", 3080, 30800)], floor=500, exhaustive=True,
+    "C18": dict(kind="lib", level="exploration", modes=[("c18", 9240, 92400)], floor=500, exhaustive=True,
                 rule="index i -> (variable selector, value selector) = i mod 154 over the full 11 x 14 matrix, brancher shape (i div 154) mod 5 in {independent, dynamic, alternating, autonomous backup, default}; models with holes, negative values, size-2 domains; half of the runs under random restart/learning options; Decision / NoDecision hook events judged; non-trivial = >=2 decisions"),
-    "C10": dict(kind="lib", level="exploration", modes=[("c10", 3000, 40000)], floor=500,
+    "C10": dict(kind="lib", level="exploration", modes=[("c10", 9000, 120000)], floor=500,
                 rule="random histories of 4-14 operations on one solver {new variables, post, satisfy, satisfy under assumptions (+/- core extraction), iterate k, optimise (both procedures)}, a quarter of the solves with a termination condition that fires at poll 0-5; every answer judged against a shadow model (posted constraints, solutions blocked by iteration per the documented rule, envelope for objective cuts); non-trivial = history contains >=2 solve operations"),
-    "C11": dict(kind="lib", level="fault_enumeration", modes=[("c11", 600, 4000)], floor=150,
+    "C11": dict(kind="lib", level="fault_enumeration", modes=[("c11", 1600, 12000)], floor=150,
                 rule="per model and entry point (satisfy / iterate / optimise sat-unsat / optimise unsat-sat, by index mod 4): uninterrupted run counts N polls, then the run is repeated on an identically seeded fresh solver with the termination condition firing at poll k for k = 0, s, 2s, ... < N (s = max(1, N div 40) quick, N div 400 thorough) and resumed without interruption; non-trivial = N >= 3 and >= 2 runs actually fired"),
-    "C16": dict(kind="lib", level="exploration", modes=[("c16", 6000, 90000)], floor=1000,
+    "C16": dict(kind="lib", level="exploration", modes=[("c16", 18000, 270000)], floor=1000,
                 rule="single-constraint models (12 kinds by index) over domains of <= 3 values placed near 0, 2^15, 2^16, 46340, 2^30, +-(2^31-1) with scales up to 65536 and offsets / right-hand sides up to 2^31-1; exact i128 enumeration gives the solution set; post-time errors, root bounds and the iterated solution set are compared; each case labelled with magnitude classes computed from the input in i128; every case is non-trivial (large-magnitude arithmetic at post time)"),
-    "C06": dict(kind="lib", level="exploration", modes=[("c06", 1800, 20000)], floor=200, case_timeout=30,
+    "C06": dict(kind="lib", level="exploration", modes=[("c06", 5400, 60000)], floor=200, case_timeout=30,
                 rule="unsatisfiable models (index mod 5 < 3) and optimisation runs (both procedures, min/max) with DRCP logging in scaffold / full / hinted mode (index mod 3), minimisation on/off, all variables named, every taggable constraint tagged; own parser + checker: codes defined, tagged inferences vs the constraint's tuple table, untagged ones vs the solution set (objective cuts classified against the callback values), nogoods implied by the model and (full/hinted) derivable by domain-based reverse unit propagation, conclusion; non-trivial = proof has >=3 steps"),
     "C19": dict(kind="lib", level="exploration", modes=[("c19", 20000, 400000)], floor=5000,
                 rule="random step sequences (inferences with/without premises, conclusion, tag, label; nogoods with none / empty / non-empty hints incl. the empty nogood; deletions; both conclusions; codes up to +-(2^31-1), ids up to 2^64-1) written by ProofWriter and read back by ProofReader; literal definitions with int/bool atomics over random identifiers and 64-bit values incl. the extremes written and parsed back; !!atomic == atomic; every case is non-trivial"),
-    "C13": dict(kind="cli", level="exploration", fn="case_fzn", mode="fzn", counts=(1200, 12000), floor=300, engine="cli-monitors",
+    "C13": dict(kind="cli", level="exploration", fn="case_fzn", mode="fzn", counts=(3000, 30000), floor=300, engine="cli-monitors",
                 technique="runtime monitoring: black-box oracle (own FlatZinc semantics + brute force) over stdout of the rebuilt binary",
                 rule="seeded FlatZinc text over 48 builtin spellings of post_constraints.rs, range / set-typed / aliased / fixed declarations, parameter arrays, output arrays, constants as arguments, int_search / bool_search annotations, satisfy / minimize / maximize, flags -a, -f, both optimisation strategies, random cumulative options; every printed block must extend to a solution, -a must print exactly the projection of all solutions plus the completeness line, UNSAT marker iff no solution, last block optimal; non-trivial = the model has >=2 solutions"),
     "C14": dict(kind="cli", level="exploration", fn="case_cnf", mode="cnf", counts=(500, 6000), floor=150, engine="cli-monitors",
                 technique="runtime monitoring: brute-force verdict, model-line check, own forward RUP checker on the DRAT file, metamorphic layouts",
                 rule="seeded k-CNF with 0-14 variables (half near the 3-SAT threshold; empty formula, empty / unit / duplicate / tautological clauses) each rendered in 8 layouts (comments between and inside clauses, line breaks inside clauses, tabs / double blanks, header spacing, CRLF, no trailing newline); verdict vs brute force, v line total and satisfying, DRAT lemmas checked by forward reverse-unit-propagation and ending in the empty clause, same verdict in every layout; non-trivial = >=3 clauses over >=2 variables"),
-    "C15": dict(kind="cli", level="exploration", fn="case_wcnf", mode="wcnf", counts=(1200, 12000), floor=300, engine="cli-monitors",
+    "C15": dict(kind="cli", level="exploration", fn="case_wcnf", mode="wcnf", counts=(3000, 30000), floor=300, engine="cli-monitors",
                 technique="runtime monitoring: brute-force optimum vs the o / s / v lines of the rebuilt binary, both encodings",
                 rule="seeded WCNF with 1-8 variables: 55% plain (no repeated variable in a clause, no empty clause), 45% degenerate (empty / duplicate / unit soft clauses, repeated variables, soft clauses decided by hard units), weights 1-50 or uniform; generalized totalizer always, cardinality network on uniform-weight instances; s line, last o line, model cost and hard clauses vs brute force, o lines strictly decreasing; non-trivial = >=2 soft clauses and satisfiable hard part"),
     "C20": dict(kind="c20", level="exploration", counts=(400, 4000), lib_counts=(1500, 20000), floor=300, engine="cli-monitors",
